@@ -86,6 +86,27 @@ func main() {
 			}
 		}
 	}
+	// lengths between the two sweeps for all four algorithms, and the joint corners of COUNT / BEARER / DIRECTION for short messages
+	for _, n := range []int{64, 65, 96, 1000} {
+		for _, alg := range []uint8{1, 2} {
+			cases = append(cases, mk("Enc", alg, n), mk("Mac", alg, n))
+		}
+	}
+	for n := 1; n <= 16; n += 5 {
+		for _, cnt := range []uint32{0, 1 << 31, 1<<32 - 1} {
+			for _, dir := range []uint8{0, 1} {
+				for _, br := range []uint8{0, 31} {
+					for _, alg := range []uint8{1, 2} {
+						for _, kind := range []string{"Enc", "Mac"} {
+							c := mk(kind, alg, n)
+							c.count, c.dir, c.bearer = cnt, dir, br
+							cases = append(cases, c)
+						}
+					}
+				}
+			}
+		}
+	}
 	// longer messages (several keystream blocks)
 	for _, n := range []int{127, 128, 129, 255, 256, 257, 300, 511, 512, 513, 1000, 2048} {
 		if *tier != "thorough" && n > 257 {
